@@ -28,11 +28,11 @@ def fmt_mu_obs(o):
     return tlcgraph.fmt_obs_noghost(o)
 
 
-def run_config(run, exe, name, conf, invariants, env=None, workers=4, cap_tours=None, prop="C01", timeout=3000, expect_refuted=None):
+def run_config(run, exe, name, conf, invariants, env=None, workers=4, cap_tours=None, prop="C01", timeout=3000, expect_refuted=None, simulate=None):
     """returns dict(info, res, tours, g).  TLC verdict handling is left to the caller."""
     c = dict(consts())
     tla, cfg = muconf.write_mc(MC, name, conf, c, invariants)
-    g, info = tlcgraph.run_tlc_graph(tla, cfg, workers=workers, cwd=MC, timeout=timeout)
+    g, info = tlcgraph.run_tlc_graph(tla, cfg, workers=workers, cwd=MC, timeout=timeout, simulate=simulate, sim_seed=seed())
     out = {"info": info, "g": g, "res": None, "tours": 0, "steps": 0}
     if not info["ok"] and not info["violated"]:
         raise ToolFailure("TLC failed on %s: %s" % (name, "\n".join(info["log"][-40:])))
@@ -76,6 +76,8 @@ def run_harness_env(exe, args, env, timeout=3000):
                 res["stats"][k] = res["stats"].get(k, 0) + int(v)
         elif line.startswith("VIOL "):
             res["viols"].append(line[5:].split("|", 5))
+        elif line.startswith("DIVFILE "):
+            res.setdefault("divfiles", []).append(line[8:].strip())
         elif line.startswith("MISMATCH ") and res["mismatch"] is None:
             res["mismatch"] = line[9:]
         elif line.startswith("ORD "):
@@ -159,6 +161,21 @@ ORACLE_OF = {"C01": {"O-excl"}, "C02": {"O-prog"}, "C04": {"O-prog", "O-ret"}, "
 ALWAYS = {"O-crash"}
 
 
+def continue_divergences(run, exe, name, out, wanted_or, per_file=None):
+    per_file = per_file or (3000 if run.tier == "quick" else 60000)
+    for k, df in enumerate(out["res"].get("divfiles", [])[:6]):
+        resz = run_harness_env(exe, ["from", df, str(per_file), str(seed() + 20 + k), REPLAYS], out["env"])
+        run.add("evaluations", per_file)
+        run.cov.setdefault("continued_divergences", []).append({"config": name, "runs": per_file, "violations": len(resz["viols"])})
+        for v in resz["viols"]:
+            if v[0] in wanted_or:
+                run.violation("%s|%s|continue %s" % (v[0], v[1], name), v[4], v[5])
+        try:
+            os.unlink(df)
+        except OSError:
+            pass
+
+
 def run_family(run, exe, prop, configs, parallel=5, workers=3, env=None, cap_tours=None):
     """configs: list of (name, conf).  Runs each (TLC exhaustive + tours + lock-step replay), then applies the
     decision rule: real-code oracle failures of this property's oracles, and spec-level refutations of this
@@ -177,7 +194,7 @@ def run_family(run, exe, prop, configs, parallel=5, workers=3, env=None, cap_tou
         conf = dict(conf)
         conf.setdefault("DbgFixed", dbg)
         conf.setdefault("CvFix", cvfix)
-        return name, conf, run_config(run, exe_bin if conf.get("Binary") else exe, name, conf, [], workers=workers, prop=prop, env=env, cap_tours=cap_tours)
+        return name, conf, run_config(run, exe_bin if conf.get("Binary") else exe, name, conf, [], workers=workers, prop=prop, env=env, cap_tours=cap_tours, simulate=conf.get("_sim"))
     results = []
     with cf.ThreadPoolExecutor(parallel) as ex:
         for r in ex.map(one, configs):
@@ -203,7 +220,10 @@ def run_family(run, exe, prop, configs, parallel=5, workers=3, env=None, cap_tou
             else:
                 run.note("spec-level refutation NOT reproduced on the code (%s): %s" % (tag, detail))
         if out["res"]["mismatch"]:
-            # DESIGN 3.7: a divergence is not a violation; it triggers extra exploration of that configuration, judged by oracles only
+            # DESIGN 3.7: a divergence is not a violation; it triggers extra exploration of that configuration, judged by oracles only:
+            # (1) the diverging behaviours themselves, continued from the point of divergence with random schedules
+            continue_divergences(run, exe_bin if conf.get("Binary") else exe, name, out, wanted_or)
+            # (2) the configuration from its initial state
             nloc = 20000 if run.tier == "quick" else 300000
             resx = run_harness_env(exe_bin if conf.get("Binary") else exe, ["random", str(nloc), str(seed() + 7), out["init"], REPLAYS], out["env"])
             run.add("evaluations", nloc); run.add("distinct_nontrivial", resx["stats"].get("nontrivial", 0))
